@@ -80,7 +80,9 @@ fn main() {
         "C05" => dispatch(props::c05::C05, &args),
         "C06" => dispatch(props::c06::C06, &args),
         "C07" => dispatch(props::c07::C07, &args),
+        "C08" => dispatch(props::c08::C08, &args),
         "C10" => dispatch(props::c10::C10, &args),
+        "C11" => dispatch(props::c11::C11, &args),
         "C12" => dispatch(props::c12::C12, &args),
         "C13" => dispatch(props::c13::C13, &args),
         "C14" => dispatch(props::c14::C14, &args),
